@@ -277,7 +277,7 @@ class Scalar:
 class Case:
     def __init__(s, cid, prop, body, bufs, ensures, mode='SYM', cfg=None, scalars=(), requires=(), note='',
                  zero_in=None, pre='', dw=None, unwind=None, replay_values=None, timeout=None, form='dfcc',
-                 expect_throw=False, extra_asserts=(), bounded=False, fs_array=None):
+                 expect_throw=False, extra_asserts=(), bounded=False, fs_array=None, b01=False):
         s.cid = cid; s.prop = prop; s.body = body; s.bufs = list(bufs); s.ensures = list(ensures)
         s.mode = mode; s.cfg = cfg or Cfg(); s.scalars = list(scalars); s.requires = list(requires)
         s.note = note
@@ -289,6 +289,8 @@ class Case:
         s.expect_throw = expect_throw
         s.extra_asserts = list(extra_asserts)
         s.fs_array = fs_array
+        s.b01 = b01                   # B01: integer inputs are constructed single bits {0,1}; bounded stand-in
+        if b01: bounded = True
         s.bounded = bounded           # B01: result is labelled bounded, never counted as proved
     def buf(s, name):
         for b in s.bufs:
@@ -363,7 +365,7 @@ def contract_text(case, fname='w', mutable_globals=()):
     assign_atom_offsets(case)
     L = []
     for b in case.bufs:
-        if case.mode == 'ATOMS':
+        if case.mode == 'ATOMS' or case.b01:
             # provenance-concrete mode: the harness owns exact-extent buffers that already hold the atom ids
             # (is_fresh would replace them by nondeterministic objects and every id would become symbolic)
             L.append('__CPROVER_requires(__CPROVER_%s(%s, %d))' % ('r_ok' if b.role == 'in' else 'rw_ok', pn[b.name], b.n * b.ty.bits // 8))
@@ -379,6 +381,11 @@ def contract_text(case, fname='w', mutable_globals=()):
     ctx['pre'] = pre
     for r in scalar_requires(case, lambda sc: pn[sc.name]):
         L.append('__CPROVER_requires(%s)' % r)
+    if case.b01:
+        for b in case.bufs:
+            if b.role != 'out' and b.ty.kind == 'int':
+                for k in range(b.n):
+                    L.append('__CPROVER_requires(((%s*)%s)[%d] <= 1)' % (b.ty.carrier, pn[b.name], k))   # the stated bound of B01
     if case.mode == 'ATOMS':
         for b in case.bufs:
             if b.atoms:
@@ -416,11 +423,12 @@ def dfcc_main(case, fname='w'):
     i = 0
     assign_atom_offsets(case)
     for b in case.bufs:
-        if case.mode == 'ATOMS':
+        if case.mode == 'ATOMS' or case.b01:
             c = b.ty.carrier
             decl.append('%s %s[%d];' % (c, b.name, b.n))
             for k in range(b.n):
-                if b.atoms: decl.append('%s[%d] = %s;' % (b.name, k, atom_value(case, b, k)))
+                if case.mode == 'ATOMS' and b.atoms: decl.append('%s[%d] = %s;' % (b.name, k, atom_value(case, b, k)))
+                elif case.b01 and b.role != 'out' and b.ty.kind == 'int': decl.append('%s[%d] = (%s)(nondet_u8() & 1);' % (b.name, k, c))
                 else: decl.append('%s[%d] = nondet_%s();' % (b.name, k, c))
             decl.append('ptr_t p%d = (ptr_t)%s;' % (i, b.name)); ps.append('p%d' % i); i += 1
             continue
@@ -447,6 +455,8 @@ def harness_main(case, fname='w'):
                 L.append('  %s[%d] = %s;' % (b.name, k, atom_value(case, b, k)))
             elif k in case.zero_in.get(b.name, ()):
                 L.append('  %s[%d] = 0;' % (b.name, k))
+            elif case.b01 and b.role != 'out' and b.ty.kind == 'int':
+                L.append('  %s[%d] = (%s)(nondet_u8() & 1);' % (b.name, k, c))
             else:
                 L.append('  %s[%d] = nondet_%s();' % (b.name, k, c))
         L.append('  for (int k = 0; k < %d; k++) %s_pre[k] = %s[k];' % (b.n, b.name, b.name))
@@ -1161,3 +1171,36 @@ def scan_assumes():
                     out.append('assume at tools/%s:%d: %s' % (os.path.relpath(p, HERE), i, line.strip()[:140]))
     _ASSUME_CACHE = out
     return out
+
+# ----------------------------------------------------------------------------------------------
+# violations found by a module's own supporting static check (C06 acceptance matrix)
+# ----------------------------------------------------------------------------------------------
+class _Pseudo:
+    def __init__(s, prop, cid): s.prop = prop; s.cid = cid
+
+def merge_extra_violations(prop, extra, viols, rc):
+    """viols: list of dict(case=<id>, names=[obligation-like strings], replay=<json-able dict>).  Applies the known-findings
+    file, prints KNOWN-FINDING / VIOLATION lines, merges `extra` and the counts into evidence/<prop>.json; returns exit code."""
+    findings = load_known_findings()
+    evp = os.path.join(VERIF, 'evidence', prop + '.json')
+    ev = json.load(open(evp))
+    nv = 0; known = []
+    for v in viols:
+        d = {'failed_names': v['names']}
+        f = match_finding(findings, _Pseudo(prop, v['case']), d)
+        if f:
+            print('KNOWN-FINDING: property=%s %s: %s [%s]' % (prop, v['case'], f['text'][:150], '; '.join(v['names'][:3])[:200]))
+            known.append({'case': v['case'], 'finding': f['text'], 'obligations': v['names'][:6]})
+            continue
+        rdir = os.path.join(VERIF, 'replays', prop); os.makedirs(rdir, exist_ok=True)
+        rpath = os.path.join(rdir, re.sub(r'[^A-Za-z0-9_.-]', '_', v['case']) + '.json')
+        json.dump(v['replay'], open(rpath, 'w'), indent=1, default=str)
+        print('VIOLATION property=%s replay=%s case=%s obligations=%s' % (prop, rpath, v['case'], '|'.join(v['names'][:3])[:200]))
+        nv += 1
+    ev['coverage'].update(extra)
+    ev['coverage']['known_findings'] = ev['coverage'].get('known_findings', []) + known
+    ev['coverage']['cases_known_finding'] = ev['coverage'].get('cases_known_finding', 0) + len(known)
+    ev['violations'] = ev.get('violations', 0) + nv
+    json.dump(ev, open(evp, 'w'), indent=1, default=str)
+    if nv: return 1
+    return rc
